@@ -30,6 +30,22 @@ CHECKS = {
              "recover() and a watchdog, and each recorded trace (events, close, outcome) must be a behaviour of the model - "
              "panic and timeout are not outcomes of any spec action. The byte space is explored, not enumerated.",
         ref="DESIGN.md §6 C17", technique="TLA+ model checking (TLC) + trace validation of fuzzed real executions"),
+    "C09": dict(
+        text="TLC checks HistoryIndependent and HandlesOnlyGrowByCompile on the ACV model (and refutes them when Eval results "
+             "alias handle-owned state); TLC enumerates every history of <=3 (quick) / <=5 (thorough) documents over 6-7 "
+             "document kinds x 2 profiles; each is run through ONE compiled handle next to fresh ValidateWithConfiguration "
+             "calls under a fixed clock; the trace spec binds the report hash of each (profile, doc) on first observation and "
+             "rejects any later call - fresh or compiled, whatever preceded it - that returns different bytes or a different outcome kind.",
+        ref="DESIGN.md §6 C09", technique="TLA+ model checking (TLC) + exhaustive history replay with TLC trace validation"),
+    "C10": dict(
+        text="TLC explores every interleaving of the stage actions of 2 concurrent calls (1.9M states) for name distinctness and "
+             "interleaving independence and refutes them for the split (racy) counter increment; TLC-simulated call schedules "
+             "(4 procs x 3 calls) are executed by a -race build with 4/16 goroutines: race-detector reports, per-call report "
+             "hashes vs solo values, probes of handles compiled under concurrency and the counter values seen by hook H3 are "
+             "validated against the spec's atomic Genvar action.",
+        ref="DESIGN.md §6 C10", technique="TLA+ model checking (TLC) + schedule replay under the Go race detector + trace validation",
+        note=TLC_NOTE + " Data-race freedom itself is observed by the Go race detector on the executions the spec's schedules "
+             "induce; TLA+ contributes the shared-state discipline, the schedules and the linearisability check of the counter."),
 }
 
 NOT_YET = "no check registered yet for this property in the current state of the framework (design in DESIGN.md §6)"
